@@ -1261,8 +1261,18 @@ func decodedEdit(c *mon.Ctx, r *gen.Rand) {
 			}
 		}
 	}
+	// a second signal decoded from the very same buffer is not re-encoded: its Data() stays the section
+	// whatever the first signal's descriptors and encoder do
+	sharer, _ := scte35.NewSCTE35(in)
+	for _, d := range ds {
+		_ = d.Data()
+	}
 	want := s.Section()
 	got := x.UpdateData()
+	if sharer != nil && !bytes.Equal(sharer.Data(), sec) {
+		c.Fail("decoded-edit:other-signal-on-the-same-buffer-changed", "two signals were decoded from one buffer; after "+hist+" and an encoding of the first, Data() of the second (which was not re-encoded) is no longer the section", w(sharer.Data(), hist))
+		return
+	}
 	if !bytes.Equal(got, want) {
 		c.Fail("decoded-edit:bytes", fmt.Sprintf("after %s the next encoding differs from the canonical section of the new values at byte %d", hist, ref.FirstDiff(got, want)), wit{Shape: s35.Shape(&s), Input: mon.Hex(snap), Got: mon.Hex(got), Want: mon.Hex(want), Detail: hist})
 		return
